@@ -2,10 +2,10 @@
 import math, copy, json
 import numpy as np
 from harness import common, gen, api
-from harness.common import fhex, flist, ftable, cbool
+from harness.common import fhex, flist, ftable, ftable2, cbool
 
 LEVEL = "proof"
-IMPORTS = ["From MuxV Require Import Base.Num Base.FInst Model.Grid Model.GridF."]
+IMPORTS = ["From MuxV Require Import Base.Num Base.Vec3 Base.FInst Model.Grid Model.GridF Model.QCurve Model.QCurveF Model.Reid Model.ReidF."]
 
 
 # ------------------------------------------------------------------ grid correspondence
@@ -64,6 +64,181 @@ def grid_cases(chk, seg, w, cases, descr):
     descr.append(dict(what="areas", side=seg.side))
     chk.count("grid=%s/%s" % (dist if isinstance(dist, str) else "explicit", seg.side))
 
+
+
+# ------------------------------------------------------------------ quarter-chord curve correspondence (Model/QCurve.v)
+D2R = math.pi / 180.0
+
+
+def cdist(v):
+    """a span-wise description value -> Coq [dist float] (None if it is not a number or a table)"""
+    if v is None:
+        return "(DConst 0x0p+0)"
+    if isinstance(v, (int, float)) and not isinstance(v, bool):
+        return "(DConst %s)" % fhex(float(v))
+    if isinstance(v, list) and v and all(isinstance(r, (list, tuple)) and len(r) == 2 for r in v):
+        return "(DTab %s)" % ftable([(float(r[0]), float(r[1])) for r in v])
+    return None
+
+
+def py_angle(v, s):
+    """Python twin of Model/QCurve.v angle_val"""
+    if v is None:
+        return 0.0 * D2R
+    if isinstance(v, (int, float)):
+        return float(v) * D2R
+    return float(np.interp(s, [float(r[0]) for r in v], np.radians([float(r[1]) for r in v])))
+
+
+def py_discont(w):
+    out = []
+    for k in ("dihedral", "sweep"):
+        if isinstance(w.get(k), list):
+            for r in w[k]:
+                if float(r[0]) not in out:
+                    out.append(float(r[0]))
+    for x in (0.0, 1.0):
+        if x not in out:
+            out.append(x)
+    return sorted(out)
+
+
+def ftrip(vs):
+    return "[" + "; ".join("(%s, %s, %s)" % (fhex(v[0]), fhex(v[1]), fhex(v[2])) for v in vs) + "]"
+
+
+def qcurve_cases(chk, ac, a, cases, descr):
+    from scipy.integrate import quad
+    by_name = {seg.name: seg for seg in a.segments}
+    for seg in a.segments:
+        name = seg.name.rsplit("_", 1)[0]
+        w = ac["wings"][name]
+        left = seg.side == "left"
+        spans = [float(x) for x in seg.node_span_locs] + [float(x) for x in seg.cp_span_locs]
+        root = [float(x) for x in seg.get_root_loc()]
+        got = np.array(seg._get_quarter_chord_loc(np.array(spans)), dtype=float)
+        tw, di, sw = cdist(w.get("twist")), cdist(w.get("dihedral")), cdist(w.get("sweep"))
+        if "quarter_chord_locs" in w:
+            pts = [[float(x) for x in p] for p in w["quarter_chord_locs"]]
+            cases.append("chk_qc_points %s (%s, %s, %s) %s %s %s %s" % (cbool(left), fhex(root[0]), fhex(root[1]), fhex(root[2]), ftrip(pts),
+                                                                       fhex(seg.b), flist(spans), ftrip(got)))
+            descr.append(dict(what="quarter-chord-points", segment=seg.name))
+            chk.count("qcurve=points/" + seg.side)
+        elif di is not None and sw is not None:
+            disc = py_discont(w)
+            cps = [float(x) for x in seg.cp_span_locs]
+            if tw is not None:
+                cases.append("chk_angles %s %s %s %s %s %s %s %s %s" % (fhex(D2R), cbool(left), tw, di, sw, flist(cps), flist(seg.twist_cp), flist(seg.dihedral_cp),
+                                                                       flist(seg.sweep_cp)))
+                descr.append(dict(what="section-angles", segment=seg.name))
+            cases.append("chk_discont %s %s %s" % (di, sw, flist(seg._discont)))
+            descr.append(dict(what="discontinuities", segment=seg.name))
+            sgn_s = -1.0 if left else 1.0
+            sgn_d = 1.0 if left else -1.0
+            igs = (lambda t: math.tan(sgn_s * py_angle(w.get("sweep"), t)),
+                   lambda t: -math.cos(sgn_d * py_angle(w.get("dihedral"), t)),
+                   lambda t: -math.sin(sgn_d * py_angle(w.get("dihedral"), t)))
+            keys = set()
+            for s_ in spans:
+                for j in range(1, len(disc)):
+                    if s_ > disc[j]:
+                        keys.add((disc[j - 1], disc[j]))
+                    else:
+                        keys.add((disc[j - 1], s_))
+                        break
+            tabs = [[(a_, b_, quad(ig, a_, b_)[0]) for (a_, b_) in sorted(keys)] for ig in igs]
+            cases.append("chk_qc_standard %s (%s, %s, %s) %s %s %s %s %s %s %s %s" % (
+                cbool(left), fhex(root[0]), fhex(root[1]), fhex(root[2]), fhex(seg.b), di, sw, ftable2(tabs[0]), ftable2(tabs[1]), ftable2(tabs[2]),
+                flist(spans), ftrip(got)))
+            descr.append(dict(what="quarter-chord-curve", segment=seg.name, discont=disc))
+            chk.count("qcurve=standard/%s/pieces=%d" % (seg.side, len(disc) - 1))
+        # connection point
+        c = w.get("connect_to", {})
+        pid = c.get("ID", 0)
+        at_root = c.get("location", "tip") == "root"
+        if pid == 0:
+            attach, pleft, pyoff, at_root_flag = [0.0, 0.0, 0.0], False, 0.0, False
+        else:
+            pname = [n for n, ww in ac["wings"].items() if ww["ID"] == pid][0]
+            pw = ac["wings"][pname]
+            pseg = by_name.get(pname + "_" + seg.side) or by_name.get(pname + "_left") or by_name.get(pname + "_right")
+            pleft = pseg.side == "left"
+            pyoff = float(pw.get("connect_to", {}).get("y_offset", 0.0))
+            attach = [float(x) for x in (pseg.get_root_loc() if at_root else pseg._get_quarter_chord_loc(1.0))]
+            at_root_flag = at_root
+        cases.append("chk_root %s (%s, %s, %s) %s %s %s %s %s %s %s (%s, %s, %s)" % (
+            cbool(left), fhex(attach[0]), fhex(attach[1]), fhex(attach[2]), cbool(at_root_flag), cbool(pleft), fhex(pyoff),
+            fhex(c.get("dx", 0.0)), fhex(c.get("dy", 0.0)), fhex(c.get("dz", 0.0)), fhex(c.get("y_offset", 0.0)), fhex(root[0]), fhex(root[1]), fhex(root[2])))
+        descr.append(dict(what="connection-point", segment=seg.name, connect_to=c))
+        chk.count("connect=%s" % ("origin" if pid == 0 else c.get("location", "tip")))
+        # lifting line = quarter chord + offset x chord along the unswept chord line
+        sp = np.array(spans)
+        off = np.array(seg._get_ll_offset(sp), dtype=float) * np.ones(len(spans))
+        ch = np.array(seg.get_chord(sp), dtype=float) * np.ones(len(spans))
+        twv = np.array(seg.get_twist(sp), dtype=float) * np.ones(len(spans))
+        div = np.array(seg.get_dihedral(sp), dtype=float) * np.ones(len(spans))
+        args = list({float(x).hex(): float(x) for x in twv.tolist() + div.tolist()}.values())     # +0.0 and -0.0 are different keys
+        tc = [(x, float(np.cos(np.array([x]))[0])) for x in args]
+        ts = [(x, float(np.sin(np.array([x]))[0])) for x in args]
+        rows = "[" + "; ".join("((%s, %s, %s), %s, %s, %s, %s)" % (fhex(got[i][0]), fhex(got[i][1]), fhex(got[i][2]), fhex(off[i]), fhex(ch[i]), fhex(twv[i]), fhex(div[i]))
+                               for i in range(len(spans))) + "]"
+        exp = [list(map(float, p)) for p in seg.nodes] + [list(map(float, p)) for p in seg.control_points]
+        cases.append("chk_ll %s %s %s %s" % (ftable(tc), ftable(ts), rows, ftrip(exp)))
+        descr.append(dict(what="lifting-line-offset", segment=seg.name, ll_offset=w.get("ll_offset", 0.0)))
+
+
+# ------------------------------------------------------------------ effective lifting lines and joints (Model/Reid.v)
+def ft3(v):
+    return "(%s, %s, %s)" % (fhex(v[0]), fhex(v[1]), fhex(v[2]))
+
+
+def cv3(v):
+    return "(V3 %s %s %s)" % (fhex(v[0]), fhex(v[1]), fhex(v[2]))
+
+
+def reid_cases(chk, a, cases, descr, rng):
+    cur = 0
+    info = {}
+    for wi in range(a._num_wings):
+        for seg in a._segments_in_wings[wi]:
+            sig = (2.0 / (seg.b * seg.blend_dist * np.cos(seg.sweep_cp))) ** 2
+            cs0 = float(np.cos(np.array([float(seg.sweep_cp[0])]))[0])
+            cases.append("chk_sigma %s %s %s %s" % (fhex(seg.b), fhex(seg.blend_dist), fhex(cs0), fhex(sig[0])))
+            descr.append(dict(what="blending-parameter", segment=seg.name))
+            for k in range(seg.N):
+                info[cur + k] = dict(sig=float(sig[k]), reid=bool(seg.reid_corr), dj=float(seg.delta_joint))
+            cur += seg.N
+    scale = max(1.0, float(np.max(np.abs(a.P0))), float(np.max(np.abs(a.P1))))
+    atol = 1e-9 * scale
+    for wi in range(a._num_wings):
+        ws = a.wing_slices[wi]
+        idx = list(range(ws.start, ws.stop))
+        secs = "[" + "; ".join("mk_sec %s %s %s %s %s %s %s %s %s %s %s %s %s" % (
+            cv3(a.PC[j]), fhex(a.PC_span_locs[j]), cv3(a.P0[j]), fhex(a.P0_span_locs[j]), cv3(a.P1[j]), fhex(a.P1_span_locs[j]), cv3(a.u_s[j]),
+            cv3(a.u_a_unswept[j]), fhex(a.P0_chord[j]), fhex(a.P1_chord[j]), fhex(info[j]["dj"]), fhex(info[j]["sig"]), cbool(info[j]["reid"])) for j in idx) + "]"
+        rows = rng.sample(idx, min(3, len(idx)))
+        for i in rows:
+            args = {}
+            if info[i]["reid"]:
+                for arr in (a.P0_span_locs, a.P1_span_locs, a.PC_span_locs):
+                    for j in idx:
+                        ds = float(arr[j]) - float(a.PC_span_locs[i])
+                        x = (-info[i]["sig"]) * ds * ds
+                        args[float(x).hex()] = x
+            te = [(x, float(np.exp(np.array([x]))[0])) for x in args.values()]
+            cases.append("chk_reid_row %s %s %s %d%%nat %s %s %s %s" % (
+                ftable(te), fhex(atol), secs, i - ws.start, ftrip(a.P0_eff[i, ws]), ftrip(a.P1_eff[i, ws]), ftrip(a.P0_joint_eff[i, ws]),
+                ftrip(a.P1_joint_eff[i, ws])))
+            descr.append(dict(what="effective-lifting-line", wing=wi, control_point=i, reid=info[i]["reid"], sections=len(idx)))
+            chk.count("reid-row=%s" % info[i]["reid"])
+            # sections of the other wings, as this control point sees them
+            others = [j for j in range(a.N) if j < ws.start or j >= ws.stop]
+            if others:
+                for nodes, chords, uas, got in ((a.P0, a.P0_chord, a.P0_u_a, a.P0_joint_eff), (a.P1, a.P1_chord, a.P1_u_a, a.P1_joint_eff)):
+                    rws = "[" + "; ".join("(%s, %s, %s, %s, %s)" % (ft3(nodes[j]), fhex(chords[j]), fhex(info[j]["dj"]),
+                                                                   cbool(info[j]["reid"] and info[i]["reid"]), ft3(uas[j])) for j in others) + "]"
+                    cases.append("chk_joint_actual %s %s %s" % (fhex(atol), rws, ftrip([got[i, j] for j in others])))
+                    descr.append(dict(what="joints-of-other-wings", control_point=i))
 
 # ------------------------------------------------------------------ independent statement of the documented curve
 def dist_value(d, s, default=0.0):
@@ -156,6 +331,13 @@ def geometry_oracle(chk, ac, a):
                     return "mirror-angles:dihedral", dict(segment=nm, left=np.array(seg.dihedral_cp).tolist(), right=np.array(rt.dihedral_cp).tolist())
                 if not np.allclose(np.array(seg.twist_cp)[::-1], np.array(rt.twist_cp), rtol=0, atol=1e-9):
                     return "mirror-angles:twist", dict(segment=nm, left=np.array(seg.twist_cp).tolist(), right=np.array(rt.twist_cp).tolist())
+                # the lifting line itself (offset from the quarter chord included): left = mirror image of right, relative to the two roots
+                for arrn in ("nodes", "control_points"):
+                    dl = (np.array(getattr(seg, arrn), dtype=float) - np.array(seg.get_root_loc(), dtype=float))[::-1]
+                    dr = np.array(getattr(rt, arrn), dtype=float) - np.array(rt.get_root_loc(), dtype=float)
+                    if not np.allclose(dl * np.array([1.0, -1.0, 1.0]), dr, rtol=0, atol=1e-9 * max(1.0, float(np.max(np.abs(dr))))):
+                        return "mirror-line:" + arrn, dict(segment=nm, left_relative_to_root=dl.tolist(), right_relative_to_root=dr.tolist(),
+                                                           ll_offset=ac["wings"][nm[:-5]].get("ll_offset", 0.0))
     for seg in a.segments:
         name = seg.name.rsplit("_", 1)[0]
         w = ac["wings"][name]
@@ -237,9 +419,12 @@ def run(chk):
     chk.proofs(extra_trusted=[
         "correspondence: Model/Grid.v on binary64 vs WingSegment.node_span_locs / cp_span_locs (bit-exact, np.cos as oracle table), c_bar_cp, dS, "
         "and Airplane.S_w / l_ref_lon / l_ref_lat",
+        "correspondence: Model/QCurve.v on binary64 vs get_twist / get_dihedral / get_sweep (bit-exact), _discont (bit-exact), _get_quarter_chord_loc at all "
+        "nodes and control points (quad values of the model's integrands supplied per pair of limits; 2^-40), get_root_loc from the parent's attachment point, "
+        "nodes / control_points from quarter-chord point, ll_offset, chord and section angles",
         "independent oracle for the quarter-chord curve: scipy.quad integration of the documented curve (dx/ds=-b tan(sweep), dihedral rotating the "
         "span direction, connection point with mirrored y offset) written separately from the implementation",
-        "not modelled: Kuchemann offset, section unit vectors from np.gradient (checked finite only), callables"])
+        "not modelled: the Kuchemann offset value, section unit vectors from np.gradient (checked finite only), callables; scipy.integrate.quad is an oracle"])
     rng = chk.rng
     cases, descr = [], []
     n = chk.q(40, 400)
@@ -259,6 +444,8 @@ def run(chk):
         a = sc._airplanes["a"]
         for seg in a.segments:
             grid_cases(chk, seg, ac["wings"][seg.name.rsplit("_", 1)[0]], cases, descr)
+        qcurve_cases(chk, ac, a, cases, descr)
+        reid_cases(chk, a, cases, descr, rng)
         # reference quantities
         ref = ac.get("reference", {})
         opt = lambda k: ("(Some %s)" % fhex(ref[k])) if k in ref else "None"
